@@ -187,3 +187,45 @@ def r_reborrow(F, R):
         R.check("R-REBORROW", b.label(), ok, construct="reborrow is the identity (composed of children's reborrow)",
                 where=b.where(), detail="returns %s" % "; ".join(show(t)[:100] for t in forms))
     R.floor("R-REBORROW", "reborrow impls", n, 12)
+
+
+def r_onto_nopanic(F, R, cat=None):
+    """clone_onto must work whatever the target held before: no slicing / positional access
+    whose bound is the *target's* previous length"""
+    from expr import operand_tree, facts_at
+    from r_bracket import walk
+    cat = cat or Catalogue(F)
+    n = 0
+    for b in F.methods_of_trait("IntoOwned", "clone_onto"):
+        if b.in_tests():
+            continue
+        ctx, effs = cat.effects(b)
+        other_len = None
+        sites = []
+        for e in effs:
+            if e.kind != "call":
+                continue
+            if e.tag in (("Index", "index"), ("IndexMut", "index_mut"), ("slice", "split_at"),
+                         ("slice", "split_at_mut"), ("Vec", "split_off"), ("Vec", "drain")):
+                for os_ in e.argorigins[1:]:
+                    t = trees(e.ctx, os_)
+                    # does the position / range derive from the length of *other (arg 2 of the top body)?
+                    uses_other = False
+                    for nd in walk(t):
+                        if nd[0] == "call" and nd[1][1] == "len" and nd[2]:
+                            for pl in places_in(nd[2][0]):
+                                if pl[1] == b.key and pl[2] == ("arg", 2):
+                                    uses_other = True
+                    if uses_other:
+                        # the indexed collection must be `other` itself, otherwise its length is unrelated
+                        recv = trees(e.ctx, e.argorigins[0])
+                        on_other = any(pl[1] == b.key and pl[2] == ("arg", 2) for pl in places_in(recv))
+                        if not on_other:
+                            sites.append((e, show(t)[:80], show(recv)[:60]))
+        n += 1
+        R.saw(b)
+        R.check("R-ONTO", b.label(), not sites,
+                construct="no positional access bounded by the target's previous length",
+                where=sites[0][0].where() if sites else b.where(),
+                detail="; ".join("%s indexed by %s" % (r, t) for (_, t, r) in sites) or "none")
+    R.floor("R-ONTO", "clone_onto impls scanned for target-length-dependent panics", n, 20)
